@@ -110,6 +110,9 @@ def oracle(sumline, real_lines):
         for k2, b2 in B.items():
             if (k2 not in D or D[k2][3] > e[5]) and b2[3] < e[5]:
                 slack += max(0, t - max(b2[2], t0))
+        # ... and by one reschedule period for every expiry that hit a critical section and whose reschedule period
+        # overlaps its life
+        slack += RESCHEDULE_US * sum(1 for tf in cs_fire_times(real_lines) if t0 - RESCHEDULE_US <= tf <= t)
         if t > due + slack:
             fails.append({"kind": "late", "id": wid, "t": t, "due": due, "slack": slack, "seq": e[5]})
     # final state: whoever is alive and has not fired must still be pending with the timer armed
@@ -155,6 +158,19 @@ def model_early(lines):
         for f in fl.split():
             wid, rest = f.split("@"); fired.setdefault(int(wid), int(rest.split(":")[0]))
     return {w for w, t in fired.items() if w in created and t < created[w][0] + created[w][1] * CS}
+
+
+RESCHEDULE_US = CS  # reschedule_time (1 cs); run() overwrites it from the regenerated facts
+
+
+def cs_fire_times(real_lines):
+    """Virtual time stamps of the expiries delivered while in_critical_section was set."""
+    out = []
+    for l in real_lines:
+        m = re.match(r"(\d+|F) f y=\d+ .* cs=1 .* now=(\d+) calls=\[ S", l)
+        if m:
+            out.append(int(m.group(2)))
+    return out
 
 
 def cs_fire_seen(real_lines):
@@ -205,7 +221,14 @@ def analyse(chk, results, hist):
                                  "reschedule-in-cs" if csf else "unexplained")
             elif f["kind"] == "late":
                 info["cause"] = "reschedule-in-cs" if csf else "unexplained"
-            hist["fail:" + f["kind"] + ":" + str(info.get("cause", "-"))] = hist.get("fail:" + f["kind"] + ":" + str(info.get("cause", "-")), 0) + 1
+            hk = "fail:" + f["kind"] + ":" + str(info.get("cause", "-"))
+            hist[hk] = hist.get(hk, 0) + 1
+            if chk.match_finding(info) is None:
+                # an unlisted failure: keep the first 20 of each (kind, cause, agrees) as replays; all are counted above
+                uk = "unlisted:" + hk + ":" + str(agrees)
+                hist[uk] = hist.get(uk, 0) + 1
+                if hist[uk] > 20:
+                    continue
             chk.failure(info, {"schedule": s, "failure": f, "real_summary": sumline,
                                "replay_hint": "echo '<schedule>' | build/lib-*/h_run_wd_*   (real code, virtual timer)",
                                "theorem": "Properties_C19.never_early / at_most_once / never_after_destruction / order"})
@@ -336,6 +359,8 @@ def run(chk):
                         "arithmetic does not overflow",
                         "handlers do not create or destroy watchdogs"]
     facts = translate_time.write()
+    global RESCHEDULE_US
+    RESCHEDULE_US = facts["reschedule_csecs"] * CS
     chk.extra["facts"] = {k: facts[k] for k in ("USECS_PER_SEC", "CSECS_PER_SEC", "reschedule_csecs", "text_eq", "text_lt")}
     files = ["Watchdog/TimeSpec.v", "gen/Facts_Time.v", "Watchdog/Time.v", "Watchdog/WD.v"]
     files += ["Watchdog/WDProofs.v", "Watchdog/WDOrder.v", "Watchdog/WDEarly.v", "Watchdog/WDNever.v", "Watchdog/TW.v"]
